@@ -2376,11 +2376,15 @@ def fast_nonMarkov_SIR(G, trans_time_fxn=None,
         infection_times = {node:time for (node,time) in 
                             pred_inf_time.items() if status[node]!='S'}
         recovery_times = {node:time for (node,time) in 
-                                rec_time.items() if status[node] =='R'}
+                                rec_time.items() if status[node] =='R' 
+                                and node in infection_times}
                                 
                 
         node_history = _transform_to_node_history_(infection_times, recovery_times, 
                                                     tmin, SIR = True)
+        for node in initial_recovereds:
+            #these never change status; they are recovered from the start.
+            node_history[node] = ([tmin], ['R'])
         if sim_kwargs is None:
             sim_kwargs = {}
         return EoN.Simulation_Investigation(G, node_history, transmissions, 
